@@ -407,7 +407,7 @@ func createShimChannel(ctx context.Context, host, shimPath string, rewriteHost b
 		w.Write([]byte("ok"))
 		metricHandler.WriteResponseCodeMetric(statusCode)
 	})
-	mux.HandleFunc(path.Join(shimPath, "data"), func(w http.ResponseWriter, r *http.Request) {
+	var dataHandler http.Handler = http.HandlerFunc(func(w http.ResponseWriter, r *http.Request) {
 		body, err := ioutil.ReadAll(r.Body)
 		if err != nil {
 			statusCode := http.StatusInternalServerError
@@ -462,6 +462,13 @@ func createShimChannel(ctx context.Context, host, shimPath string, rewriteHost b
 		w.Write([]byte("ok"))
 		metricHandler.WriteResponseCodeMetric(statusCode)
 	})
+	if enableWebsocketInjection {
+		// The headers of a data request are copied into the messages it carries, so they
+		// get the same treatment as the headers of an open request: with session tracking
+		// the backend must see the session's cookies, not the agent's session cookie.
+		dataHandler = openWebsocketWrapper(dataHandler, metricHandler)
+	}
+	mux.Handle(path.Join(shimPath, "data"), dataHandler)
 	mux.HandleFunc(path.Join(shimPath, "poll"), func(w http.ResponseWriter, r *http.Request) {
 		body, err := ioutil.ReadAll(r.Body)
 		if err != nil {
